@@ -15,7 +15,7 @@ ONE = {"ip": 1, "fd": 0, "fp": 0}
 
 
 # ---------------------------------------------------------------- events -> text
-DEFAULT_CFG = {"spc": "normal", "eol": "lf", "gmode": "default", "ctoks": "default", "msfk": False, "dq": False,
+DEFAULT_CFG = {"chk": "checks", "spc": "normal", "eol": "lf", "gmode": "default", "ctoks": "default", "msfk": False, "dq": False,
                "argname": "", "argref": "", "argparam": {"some": False}}
 NO_LIST = {"given": False, "keys": [], "form": "list"}
 
@@ -33,6 +33,10 @@ def mantissa(v):
 
 
 def param_text(v, style):
+    if style == "zero":
+        return "0"
+    if style == "zerof":
+        return "0.0"
     digs = "".join(str(d) for d in v["digs"])
     sign = "-" if v["neg"] else ""
     e = v["e"]
@@ -222,7 +226,11 @@ def read(doc, klass, system, allowed, cfg, nochecks, use_args=True):
     elif cfg["gmode"] == "none":
         rkw["globals_"] = False
     if nochecks:
-        rkw["checks"] = ()
+        if cfg.get("chk") == "dontcheck":
+            # the same through the other door: every default check named in dont_check
+            rkw["dont_check"] = {"any_effect", "all_positive", "all_integral", "consistent_units"}
+        else:
+            rkw["checks"] = ()
     if not system:
         cls = _classes(klass, False)
         if use_args:
@@ -239,7 +247,10 @@ def read(doc, klass, system, allowed, cfg, nochecks, use_args=True):
     if rkw:
         kw["rxn_parse_kwargs"] = rkw
     if nochecks:
-        kw["checks"] = ()
+        if cfg.get("chk") == "dontcheck":
+            kw["dont_check"] = {"balance", "substance_keys", "duplicate", "duplicate_names"}
+        else:
+            kw["checks"] = ()
     if cfg["ctoks"] == "custom":
         kw["comment_tokens"] = ("//", "%")
     if cfg["msfk"]:
@@ -271,13 +282,34 @@ def _edit_then_copy(doc, klass, system, allowed, cfg, nochecks, obs):
         obs["edit_exc"] = "%s: %s" % (type(e).__name__, str(e)[:120])
 
 
+def _twins(doc, klass, system, allowed, cfg, nochecks, obs):
+    """History: the same text read twice in one process gives equal objects that share nothing."""
+    try:
+        o1, r1 = read(doc, klass, system, allowed, cfg, nochecks)
+        o2, r2 = read(doc, klass, system, allowed, cfg, nochecks)
+        obs["twin_eq"] = bool(o1 == o2) and len(r1) == len(r2) and all(bool(a == b) for a, b in zip(r1, r2))
+        before = [project_rxn(r) for r in r2]
+        for r in r1:
+            for attr in ("reac", "prod", "inact_reac", "inact_prod"):
+                d = getattr(r, attr)
+                for k in list(d):
+                    d[k] = d[k] + 1
+                d["@@twin"] = 2
+            r.data["@@"] = 1
+        obs["twin_indep"] = [project_rxn(r) for r in r2] == before
+    except Exception as e:
+        obs["twin_eq"] = False
+        obs["twin_exc"] = "%s: %s" % (type(e).__name__, str(e)[:120])
+
+
 def observe(doc, klass, system, allowed, cfg, nochecks, want_rt, override=None):
     """Everything C12 looks at for one text, projected.  nochecks: switch the constructor's
     documented default checks (all_integral, any_effect, consistent_units, duplicate) off."""
     obs = {"doc": doc, "klass": klass, "raised": False, "exc": "", "lines": [], "copy_eq": True,
            "copy_lines": [], "rts": [], "retried": False, "substances": [], "copy_indep": True,
            "after_lines": [], "copy_over_lines": [], "edit": {"low": EDIT_LOW, "high": EDIT_HIGH},
-           "edit_lines": [], "edit_copy_eq": True, "edit_str_eq": True}
+           "edit_lines": [], "edit_copy_eq": True, "edit_str_eq": True, "twin_eq": True, "twin_indep": True,
+           "reassign": {"raised": False, "lines": []}}
     try:
         obj, rxns = read(doc, klass, system, allowed, cfg, nochecks)
     except Exception as e:
@@ -326,6 +358,7 @@ def observe(doc, klass, system, allowed, cfg, nochecks, want_rt, override=None):
         obs["copy_eq"] = False
         obs["copy_exc"] = "%s: %s" % (type(e).__name__, str(e)[:120])
     _edit_then_copy(doc, klass, system, allowed, cfg, nochecks, obs)
+    _twins(doc, klass, system, allowed, cfg, nochecks, obs)
     if not want_rt:
         return obs
     # print under every requested option (with_param, with_name), then read the printed text
@@ -333,25 +366,30 @@ def observe(doc, klass, system, allowed, cfg, nochecks, want_rt, override=None):
     from chempy import Substance
     rcfg = dict(cfg, spc="normal", eol="lf", gmode="default", dq=False)
     printers = []
-    for wp, wn, rtno in want_rt:
+    for wp, wn, nd, rtno in want_rt:
         bits = "%d%d" % (wp, wn)
+        if nd != 3:
+            # the printer's magnitude_fmt setting away from its default (reactions only)
+            printers.append(("s%sd%d" % (bits, nd), wp, wn, nd, rtno, lambda o, wp=wp, wn=wn, nd=nd: o.string(
+                with_param=wp, with_name=wn, magnitude_fmt=lambda x: ("%%.%dg" % nd) % x)))
+            continue
         if system:
-            printers.append(("y" + bits, wp, wn, rtno, lambda o, wp=wp, wn=wn: o.string(with_param=wp, with_name=wn)))
+            printers.append(("y" + bits, wp, wn, nd, rtno, lambda o, wp=wp, wn=wn: o.string(with_param=wp, with_name=wn)))
             if wp and wn:
-                printers.append(("ydef", wp, wn, rtno, lambda o: o.string()))
+                printers.append(("ydef", wp, wn, nd, rtno, lambda o: o.string()))
         else:
-            printers.append(("s" + bits, wp, wn, rtno, lambda o, wp=wp, wn=wn: o.string(with_param=wp, with_name=wn)))
+            printers.append(("s" + bits, wp, wn, nd, rtno, lambda o, wp=wp, wn=wn: o.string(with_param=wp, with_name=wn)))
             if wp and wn:
-                printers.append(("str", wp, wn, rtno, lambda o: str(o)))
+                printers.append(("str", wp, wn, nd, rtno, lambda o: str(o)))
             if not wp and not wn:
-                printers.append(("sdef", wp, wn, rtno, lambda o: o.string()))
+                printers.append(("sdef", wp, wn, nd, rtno, lambda o: o.string()))
             if wp and not wn:
                 # the substances mapping of string(): keys are printed through their Substance
-                printers.append(("smap", wp, wn, rtno, lambda o: o.string(
+                printers.append(("smap", wp, wn, nd, rtno, lambda o: o.string(
                     dict((k, Substance(k)) for k in o.keys()), with_param=True)))
-    for kind, wp, wn, rtno, pr in printers:
+    for kind, wp, wn, nd, rtno, pr in printers:
         rtno = bool(nochecks or rtno)
-        rt = {"kind": kind, "wp": bool(wp), "wn": bool(wn), "raised": False, "lines": [], "eq": False, "text": ""}
+        rt = {"kind": kind, "wp": bool(wp), "wn": bool(wn), "nd": nd, "raised": False, "lines": [], "eq": False, "text": ""}
         try:
             txt = pr(obj)
             rt["text"] = txt
@@ -377,6 +415,24 @@ def observe(doc, klass, system, allowed, cfg, nochecks, want_rt, override=None):
             rt["raised"] = True
             rt["exc"] = "%s: %s" % (type(e).__name__, str(e)[:120])
         obs["rts"].append(rt)
+    # history: reassign the parameter of the read object(s), print (with_param), read back
+    if override is not None:
+        try:
+            objr, rxr = read(doc, klass, system, allowed, cfg, nochecks)
+            for r in rxr:
+                r.param = float_of(override)
+            txt = objr.string(with_param=True, with_name=False)
+            pdoc = txt.split("\n")
+            while pdoc and pdoc[-1] == "":
+                pdoc.pop()
+            o2, r2 = read(pdoc, klass, system, allowed, rcfg, True, use_args=False)
+            ls = [project_rxn(r) for r in r2]
+            if any(x is None for x in ls):
+                obs["reassign"] = {"raised": True, "lines": [], "exc": "unencodable"}
+            else:
+                obs["reassign"] = {"raised": False, "lines": ls}
+        except Exception as e:
+            obs["reassign"] = {"raised": True, "lines": [], "exc": "%s: %s" % (type(e).__name__, str(e)[:120])}
     return obs
 
 
@@ -467,7 +523,7 @@ def rand_cfg(rng, system):
     cfg = dict(DEFAULT_CFG)
     cfg["argparam"] = {"some": False}
     for _ in range(rng.choice([1, 1, 2, 3])):
-        d = rng.choice(["spc", "eol", "gmode", "dq", "ctoks", "args"])
+        d = rng.choice(["spc", "eol", "gmode", "dq", "ctoks", "args", "chk"])
         if d == "spc":
             cfg["spc"] = rng.choice(["wide", "tight"])
         elif d == "eol":
@@ -476,6 +532,8 @@ def rand_cfg(rng, system):
             cfg["gmode"] = rng.choice(["empty", "none"])
         elif d == "dq":
             cfg["dq"] = True
+        elif d == "chk":
+            cfg["chk"] = "dontcheck"
         elif d == "ctoks" and system:
             cfg["ctoks"] = "custom"
         elif d == "args" and not system:
@@ -543,6 +601,9 @@ class Gen(object):
                     st = "sci"
                 ex, dim = r.choice(UNIT_EXPRS)
                 evs.append({"k": "param", "kind": "qty", "v": v, "style": st, "expr": ex, "unit": dim})
+            elif u < 0.28:
+                evs.append({"k": "param", "kind": "num", "v": {"neg": False, "digs": [], "e": 0},
+                            "style": r.choice(["zero", "zerof"])})
             else:
                 v, st = rand_param(r)
                 evs.append({"k": "param", "kind": "num", "v": v, "style": st})
@@ -570,7 +631,10 @@ class Gen(object):
             allowed = sorted(set(self._key() for _ in range(r.randint(2, 6))))
             if len(allowed) < 2:
                 allowed = sorted(set(allowed + ["A", "B"]))
-            evs.append({"k": "allowed", "keys": allowed, "form": r.choice(["list", "list", "tuple", "set", "dict", "str", "alias"])})
+            form = r.choice(["list", "list", "tuple", "set", "dict", "str", "alias"])
+            if fault == "unknown" and r.random() < 0.15:
+                allowed, form = [], r.choice(["list", "tuple", "set", "dict"])      # an EMPTY list allows nothing
+            evs.append({"k": "allowed", "keys": allowed, "form": form})
         cfg = dict(DEFAULT_CFG)
         if r.random() < 0.35 or fault == "stale":
             cfg = rand_cfg(r, system)
@@ -619,6 +683,9 @@ class Gen(object):
             tok = r.choice(active)
             evs.append({"k": "comment", "c": {"t": r.choice(COMMENTS[tok]), "tok": tok}})
         evs.append({"k": "finish"})
+        if allowed is not None and not allowed:
+            # nothing is allowed: every term names an unknown key
+            evs = [dict(e, k="unknown") if e["k"] in ("term", "inact") else e for e in evs]
         return evs, system
 
 
@@ -637,9 +704,11 @@ def line_facts(events):
     qty = any(e["k"] == "param" and e.get("kind") == "qty" for e in events) and cfg["gmode"] != "none"
     nlines = sum(1 for e in events if e["k"] in ("newline", "finish", "missingarrow")
                  ) if any(e["k"] in ("term", "inact", "unknown") for e in events) else 0
-    opts = [(wp, wn, True) for wp in (True, False) for wn in (True, False) if not (wn and named) and not (wp and qty)]
+    opts = [(wp, wn, 3, True) for wp in (True, False) for wn in (True, False) if not (wn and named) and not (wp and qty)]
     system = (sum(1 for e in events if e["k"] == "newline") > 0 or any(e["k"] in ("comment", "stale") for e in events)
               or cfg["msfk"] or cfg["ctoks"] != "default")
+    if not system and not qty:
+        opts.append((True, False, 10, True))      # magnitude_fmt with ten digits (reactions only)
     return {"fault": fault, "printable": not fault and not inact and bool(opts), "print_opts": opts,
             "system": system, "allowed": any(e["k"] == "allowed" for e in events), "nlines": nlines}
 
